@@ -15,8 +15,10 @@ RULES = {
     'R3': 'handle_new_connection is reached only after the whole fixed-size record was received, credentials were obtained and hdr.id is AUTHENTICATE; every other edge closes the socket; the record is freed on every path',
     'R5': 'every send that reads from receive_buf uses a length bounded by its capacity (request.max_msg_size)',
     'R4': 'the capacity given to the receive slot is the allocation size of receive_buf; that size is at least what the receive path writes unconditionally (the header peek), and the peek itself is made only into a buffer whose capacity was tested to hold it (the client hands its own buffer in)',
+    'R6': 'the wake-up bytes of one pass fit the dispatcher\'s buffer: the count of bytes drained into the fixed array is incremented at most once per turn of the request loop, the loop goes on only while the budget taken before it (the clamped queue length, at most the array size) is positive, and inside the loop that budget is only ever decremented',
+    'R7': 'a handshake that does not come is not waited for: in qb_ipc_us_recv_msghdr no edge on which the receive has failed (result == -1) leads back to the receive - the server reads the handshake in its main loop, a peer that sends part of it and stalls would stop every other client',
 }
-FLOORS = {'R1': 6, 'R2': 5, 'R3': 5, 'R4': 4, 'R5': 1}
+FLOORS = {'R1': 6, 'R2': 5, 'R3': 5, 'R4': 4, 'R6': 3, 'R7': 1, 'R5': 1}
 
 
 def run(ctx):
@@ -25,6 +27,8 @@ def run(ctx):
     r3(ctx)
     r4(ctx)
     r5(ctx)
+    r6(ctx)
+    r7(ctx)
 
 
 def _derived_from_param(f, e, at, pname):
@@ -436,3 +440,99 @@ def r5(ctx):
                           '%s sends %s bytes starting at receive_buf, a count the peer can drive past the buffer size (heap over-read sent to the peer)' % (f.name, why))
     if n == 0:
         raise AnalysisBroken('no read from receive_buf found (rule instance vanished)')
+
+
+def r6(ctx):
+    prog = ctx.prog
+    f = prog.fn('qb_ipcs_dispatch_connection_request')
+    arrs = {ev.d['var']: prog.type_info(ev.d.get('ty', '')) for ev in f.events('DECL') if prog.type_info(ev.d.get('ty', '')).get('kind') == 'array'}
+    drains = [ev for ev in f.events('CALL') if ev.callee in ('qb_ipc_us_recv',) and len(ev.args) >= 3 and estr(unwrap(ev.args[1])) in arrs and cval(unwrap(ev.args[2])) is None]
+    drains += [st for st in f.events('STORE') if st.rhs is not None and callee_of(unwrap(st.rhs)) == 'qb_ipc_us_recv' and
+               estr(unwrap(unwrap(st.rhs)['args'][1])) in arrs and cval(unwrap(unwrap(st.rhs)['args'][2])) is None]
+    if not drains:
+        raise AnalysisBroken('qb_ipcs_dispatch_connection_request: no drain of a counted number of wake-up bytes into a local array')
+    call = unwrap(drains[0].rhs) if drains[0].kind == 'STORE' else drains[0].e
+    arr, cnt = estr(unwrap(call['args'][1])), estr(unwrap(call['args'][2]))
+    size = arrs[arr].get('n')
+    loops = f.natural_loops()
+    incs = [st for st in f.events('STORE') if estr(st.lhs) == cnt and st.d['op'] != '=']
+    inl = [(h, b) for (h, b) in loops.items() if incs and all(st.blk in b for st in incs)]
+    if not incs or not inl:
+        raise AnalysisBroken('qb_ipcs_dispatch_connection_request: the counter %s is not incremented in a loop' % cnt)
+    hdr, body = min(inl, key=lambda x: len(x[1]))
+    ctx.check('R6', 'count-steps-by-one', all(st.d['op'] == '++' or (st.d['op'] == '+=' and cval(unwrap(st.rhs)) == 1) for st in incs) and len(incs) == 1, incs[0],
+              'the count of wake-up bytes grows by one per turn', 'the count of wake-up bytes grows by more than one per turn of the request loop')
+    def starts_within(var):
+        """the value `var` has when the loop starts comes from a function of this unit whose returns are constants / clamps of at most the array size"""
+        defs = [st for st in f.events('STORE') if estr(st.lhs) == var and st.blk not in body and st.d['op'] == '=']
+        ok = False
+        for st in defs:
+            cal = callee_of(unwrap(st.rhs)) if st.rhs is not None else None
+            if not (cal and prog.has_fn(cal)):
+                continue
+            g = prog.fn(cal)
+            tops = []
+            for rv in g.returns():
+                srcs, _en = value_sources(g, rv.e, rv) if rv.e is not None else ([], False)
+                for x in srcs:
+                    c = cval(unwrap(x))
+                    if c is not None:
+                        tops.append(c)
+                    elif unwrap(x).get('k') == 'cond':
+                        leaves = [cval(unwrap(unwrap(x)['t'])), cval(unwrap(unwrap(x)['f']))]
+                        tops.append(max(v for v in leaves if v is not None) if any(v is not None for v in leaves) else None)
+                    elif unwrap(x).get('k') in ('call', 'var'):
+                        continue        # the raw queue length: returned as it is only when <= 0, otherwise through the clamps
+                    else:
+                        tops.append(None)
+            ok = ok or (any(t_ is not None and t_ > 1 for t_ in tops) and None not in tops and max(tops) <= (size or 0))
+        return ok, defs
+    # the budget: a variable the continuing edges test for > 0 and that starts within the array size
+    cands = []
+    for b_ in sorted(body):
+        blk = f.blocks[b_]
+        if blk.cond is None:
+            continue
+        for (t, lab) in blk.succs:
+            if lab in (True, False) and t in body:
+                for a in atoms_of(blk.cond, lab):
+                    if a.op == '>' and a.rc == 0 and unwrap(a.l).get('k') == 'var' and a.ls not in cands:
+                        cands.append(a.ls)
+    budget = next((v for v in cands if starts_within(v)[0]), None)
+    ctx.check('R6', 'loop-needs-budget', budget is not None, incs[0],
+              'the request loop goes on only while its budget (%s, at most the %s bytes of %s when the loop starts) is positive' % (budget, size, arr),
+              'the request loop is not bounded by a budget that starts at no more than the %s bytes of %s (tested for > 0: %s)' % (size, arr, cands))
+    if budget is not None:
+        inside = [st for st in f.events('STORE') if estr(st.lhs) == budget and st.blk in body]
+        bad = [st for st in inside if not (st.d['op'] == '--' or (st.d['op'] == '-=' and (cval(unwrap(st.rhs)) or 0) >= 1))]
+        ctx.check('R6', 'budget-only-decremented-in-loop', bool(inside) and not bad, bad[0] if bad else inside[0] if inside else incs[0],
+                  'inside the loop the budget is only decremented',
+                  'inside the request loop the budget %s is given a new value (%s): the bound of %s requests per pass holds for one look at the queue, not for the pass, and the %s wake-up bytes drained afterwards overrun %s[%s] on the stack with bytes the client chose'
+                  % (budget, estr(bad[0].rhs) if bad and bad[0].rhs is not None else '', size, cnt, arr, size))
+
+
+def r7(ctx):
+    prog = ctx.prog
+    f = prog.fn('qb_ipc_us_recv_msghdr')
+    rc = [st for st in f.events('STORE') if st.rhs is not None and callee_of(unwrap(st.rhs)) == 'recvmsg']
+    if len(rc) != 1:
+        raise AnalysisBroken('qb_ipc_us_recv_msghdr: recvmsg result stores = %d' % len(rc))
+    rv = estr(rc[0].lhs)
+    back = []
+    for b in f.blocks.values():
+        if b.cond is None:
+            continue
+        for (t, lab) in b.succs:
+            if lab in (True, False) and any(a.ls == rv and a.op == '==' and a.rc == -1 for a in atoms_of(b.cond, lab)):
+                def still_failed(fb, t2, lab2):
+                    # do not follow edges on which the result is known not to be -1 any more
+                    if fb.cond is None or lab2 not in (True, False):
+                        return True
+                    return not any(a.ls == rv and ((a.op == '!=' and a.rc == -1) or (a.op == '==' and a.rc is not None and a.rc != -1) or
+                                                   (a.op in ('>', '>=') and a.rc is not None and a.rc >= 0)) for a in atoms_of(fb.cond, lab2))
+                hits, _e, _n = f.search(('edge', b.id, t), goal=lambda ev: ev.d is rc[0].d, edge_filter=still_failed)
+                if hits:
+                    back.append(b)
+    ctx.check('R7', 'failed-handshake-receive-returns', not back, '%s:%d (qb_ipc_us_recv_msghdr)' % (f.file, back[0].term_ln) if back else rc[0],
+              'a failed receive of the handshake returns to the main loop',
+              'after a failed receive (%s == -1) the function goes back to recvmsg: with EAGAIN on the server\'s non-blocking socket that is a busy wait inside the main loop - one peer that sends a few bytes of a handshake and stalls stops the service for everybody' % rv)
